@@ -37,7 +37,7 @@ impl Prop for C04 {
 
     fn profiles(tier: Tier) -> Vec<Profile> {
         match tier {
-            Tier::Quick => vec![prof("const", 20_000), prof("wild", 10_000), prof("huge", 14_000), prof("end", 10_000)],
+            Tier::Quick => vec![prof("const", 60_000), prof("wild", 30_000), prof("huge", 42_000), prof("end", 30_000)],
             Tier::Thorough => vec![prof("const", 800_000), prof("wild", 400_000), prof("huge", 500_000), prof("end", 300_000)],
         }
     }
